@@ -150,6 +150,17 @@ def profile_C03(g, tier):
     fam = scen["families"]
     if g.chance("populate3", 0.5):
         fam["p_pop_shared"] = g.pick("ppop", [0.3, 0.6, 0.9])
+    if g.chance("scoped-retries", 0.25):
+        # separate reuse scopes with different pool contents and retries: every scope decides for itself
+        scen["nets"] = g.pick("snets", ["cluster1.net6 cluster2.net6", "cluster1.net6 cluster1.net8 cluster2.net7",
+                                        "net1 net2", "net1 net2 net3", "net1 cluster1.net6 cluster2.net7"])
+        scen["params"]["pool_scope"] = g.pick("sscope", ["own swarm shared", "own shared", "own"])
+        scen["params"]["max_tries"] = g.pick("smt", ["2", "3"])
+        fam["p_pop_own"] = g.pick("ppop_own", [0.3, 0.6])
+        fam["p_pop_shared"] = 0.0
+        fam["p_fail"] = g.pick("sp_fail", [0.0, 0.2])
+        fam["statuses"] = ["FAIL", "ERROR"]
+        scen["kind"] = "scoped-retries"
     return scen
 
 
